@@ -31,10 +31,12 @@ class C04(rt.RoundTrip):
     def option_list(self):
         if self.tier == "thorough":
             return ([{"edd": e, "ww": w} for e in (False, True) for w in (True, False)]
-                    + [{"edd": e, "ww": w, "ddoc": True} for e in (False, True) for w in (True, False)])
+                    + [{"edd": e, "ww": w, "ddoc": True} for e in (False, True) for w in (True, False)]
+                    + [{"edd": e, "ww": True, "wrapdesc": True} for e in (False, True)])
         # ddoc: the prose handed to the emitter already carries the 'Defaults to ...' sentence
         return [{"edd": False, "ww": True}, {"edd": True, "ww": True}, {"edd": False, "ww": False},
-                {"edd": False, "ww": True, "ddoc": True}, {"edd": True, "ww": True, "ddoc": True}]
+                {"edd": False, "ww": True, "ddoc": True}, {"edd": True, "ww": True, "ddoc": True},
+                {"edd": False, "ww": True, "wrapdesc": True}]
 
 
 CHECK = C04
